@@ -523,8 +523,8 @@ class IFMR:
         # Black Holes
         # ------------------------------------------------------------------
 
-        if BH_kwargs is None:
-            BH_kwargs = dict()
+        # (work on a copy: defaults filled in below must not leak to the caller)
+        BH_kwargs = dict() if BH_kwargs is None else dict(BH_kwargs)
 
         match BH_method.casefold():
 
@@ -570,8 +570,7 @@ class IFMR:
         # White Dwarfs
         # ------------------------------------------------------------------
 
-        if WD_kwargs is None:
-            WD_kwargs = dict()
+        WD_kwargs = dict() if WD_kwargs is None else dict(WD_kwargs)
 
         match WD_method.casefold():
 
